@@ -106,8 +106,9 @@ def check_property(prop, cfg, tier, seed, replay=None):
     with core.Lock():
         regen_res = core.regen(log)
         wanted = set(cfg.get("regen", []))
-        if cfg.get("module"):
-            wanted |= core.regen_items_in_cone(core.import_cone([cfg["module"]]))
+        mods = ([cfg["module"]] if cfg.get("module") else []) + list(cfg.get("extra_modules", []))
+        if mods:
+            wanted |= core.regen_items_in_cone(core.import_cone(mods))
         for name, ok, out in regen_res:
             # charged only for the regenerated items this property depends on (exact name, or prefix ending in ':')
             if not any(name == w or (w.endswith(":") and name.startswith(w)) or name == w.split(":")[0] + ":build" for w in wanted):
@@ -115,7 +116,7 @@ def check_property(prop, cfg, tier, seed, replay=None):
             obligations.append(f"regen:{name}")
             if ok: discharged.append(f"regen:{name}")
             else: broken.append(dict(what=f"regen:{name}", detail=out[-1500:]))
-        targets = [cfg["module"]] if cfg.get("module") else []
+        targets = mods
         # the property's own module and the driver are separate obligations: a proof module that broke must
         # not hide the driver, and a driver that does not build is not a broken proof of this property
         lean_ok = True
@@ -129,7 +130,7 @@ def check_property(prop, cfg, tier, seed, replay=None):
         axioms = {}
         theorems = cfg.get("theorems", [])
         if theorems:
-            axioms = core.audit(theorems, cfg["module"], log) if lean_ok else {t: None for t in theorems}
+            axioms = core.audit(theorems, mods, log) if lean_ok else {t: None for t in theorems}
         for t in theorems:
             obligations.append(t)
             ax = axioms.get(t)
@@ -141,15 +142,15 @@ def check_property(prop, cfg, tier, seed, replay=None):
             else:
                 discharged.append(t)
         # the property module's import cone and the compiled driver's import cone (not other properties' work in progress)
-        hits = core.grep_forbidden(core.import_cone(([cfg["module"]] if cfg.get("module") else []) + ["ZModel"]))
+        hits = core.grep_forbidden(core.import_cone(mods + ["ZModel"]))
         obligations.append("source-grep:no sorry/admit/axiom/native_decide/bv_decide/implemented_by/unsafe")
         if hits:
             broken.append(dict(what="source grep", detail=hits[:20]))
         else:
             discharged.append(obligations[-1])
-        if tier == "thorough" and lean_ok and cfg.get("module"):
-            rc, out = core.sh(["lake", "env", "leanchecker", cfg["module"]], cwd=core.LEAN, timeout=3600)
-            obligations.append("leanchecker " + cfg["module"])
+        if tier == "thorough" and lean_ok and mods:
+            rc, out = core.sh(["lake", "env", "leanchecker"] + mods, cwd=core.LEAN, timeout=3600)
+            obligations.append("leanchecker " + " ".join(mods))
             if rc == 0: discharged.append(obligations[-1])
             else: broken.append(dict(what="leanchecker", detail=out[-1500:]))
         hok, hout, hbin = core.build_harness(log, cfg.get("components"), prop)
